@@ -14,11 +14,14 @@ AreaA == { <<12, 3, 2, 28, 1>> }
 AreaAT == { <<12, 3, 2, 28, 1>>, <<12, 3, 2, 28, 4>> }
 \* ... and with a module whose disc is exactly as wide as the die (area 50: radius 4 = half the side)
 AreaAX == AreaAT \cup { <<12, 3, 2, 50, 1>> }
+\* ... and the profile in which the big soft module carries a 2x2 rectangle (a part of its area)
+ProfAR == { <<"soft", "soft", "hard", "soft", "fixed">>, <<"soft", "soft", "hard", "softr", "fixed">> }
 \* quick: soft r=2, soft r=3, bar, soft r=3 (fewer seeds: the seed range of a large module is short)
 AreaAQ == { <<12, 28, 2, 28, 1>> }
 FixA == { <<2, -2>> }
 \* thorough: a wide die as well, two net topologies, two fixed places (one outside the spans of the movable nodes)
 HalfAT == { <<4, 4>>, <<6, 4>> }
+HalfR == { <<6, 4>> }
 FixAT == { <<2, -2>>, <<-3, 3>> }
 \* two trials: soft r=2, movable hard square, fixed square (+ a soft r=1 in thorough)
 ProfB == { <<"soft", "hard", "fixed">> }
@@ -31,7 +34,7 @@ AreaBT == { <<12, 1, 3, 2>> }
 \* units: the last one nearly fills a die of half-width 4); templates 1..3 for hard and fixed modules
 GenHalf == { <<4, 4>>, <<5, 4>>, <<4, 5>>, <<5, 5>> }
 GenHalfT == GenHalf \cup { <<5, 2>>, <<2, 5>> }
-GenProf5 == { <<"soft", "soft", "soft", "soft", "fixed">>, <<"soft", "hard", "soft", "hard", "fixed">>,
+GenProf5 == { <<"softr", "soft", "hard", "soft", "fixed">>, <<"soft", "soft", "soft", "soft", "fixed">>, <<"soft", "hard", "soft", "hard", "fixed">>,
               <<"hard", "soft", "soft", "soft", "soft">>, <<"soft", "soft", "hard", "soft", "fixed">> }
 GenProf46 == { <<"soft", "soft", "soft", "soft">>, <<"hard", "hard", "hard", "hard">>,
                <<"soft", "soft", "hard", "soft", "fixed", "fixed">>, <<"fixed", "soft", "hard", "soft", "soft", "fixed">> }
